@@ -49,6 +49,13 @@
    VF_CFG_TREE( "tree-sel1-eager", TOP, sel1, ACT, eager, false, 1 );                                                           \
    VF_CFG_TREE( "tree-sel2-eager", TOP, sel2, ACT, eager, false, 2 );                                                           \
    VF_CFG_TREE( "tree-sel1-lazy", TOP, sel1, ACT, lazy, true, 1 )
+#elif VF_CFGSET == 7
+// C13: scopes; a root state is passed to parse()
+#define VF_CFG_SC( NAME, TOP, ACT, CTL, A, M, T, actions, required, lazy ) \
+   e.cfgs.push_back( vf::cfg_entry{ NAME, &vf::runner_scopes< TOP, ACT, CTL, tao::pegtl::apply_mode::A, tao::pegtl::rewind_mode::M, tao::pegtl::tracking_mode::T, VF_EOL >, actions, required, lazy, true, true, VF_EOL_ID, 0, 1, 1, -1, true } )
+#define VF_CFGS( e, TOP, ACT )                                                                                   \
+   VF_CFG_SC( "scopes-action-req-eager", TOP, ACT, vf::obs_control_unw, action, required, eager, true, true, false ); \
+   VF_CFG_SC( "scopes-nothing-opt-lazy", TOP, ACT, vf::obs_control_unw, nothing, optional, lazy, false, false, true )
 #elif VF_CFGSET == 4
 // C08: observer through state_control, and the coverage facility
 #define VF_CFGS( e, TOP, ACT )                                                                                                 \
